@@ -325,6 +325,7 @@ namespace jsoncons {
                     break;
                 }
             }
+            parser_.skip_whitespace(); // white space in the chunk that was read last
         }
 
         void check_done()
